@@ -19,7 +19,8 @@ LEVEL = "exploration"
 RULE = (
     "generated valid inputs of 2-3 assets whose sheets reuse the same row numbers with different shapes, rows not "
     "time-sorted, crypto fees on acquisitions (artificial fee rows), events around New Year in far-apart UTC offsets (own "
-    "years not monotone in the detail table), x windows that hide lots / events of the second and "
+    "years not monotone in the detail table), tables starting ~2000 rows down the sheet (transaction ids equal to the tax years of the "
+    "asset), a disposal taking less than 5e-14 of a huge lot (sold percentage displays as nothing), x windows that hide lots / events of the second and "
     "third asset while the first shows a transaction with the same row id; each HYPERLINK formula of the detail table is "
     "parsed and its target row of '<asset> In-Out' must hold that very transaction (unique id, timestamp, type, matching "
     "table), hidden transactions must carry no link, each Summary line must link to the first detail row of that year of "
@@ -31,8 +32,8 @@ ASSUMPTIONS = [
     "links are checked on their formula text; no spreadsheet engine evaluates them",
 ]
 SETTINGS: Dict[str, Dict[str, Any]] = {
-    "quick": {"cases": 160, "budget_s": 60, "minimums": {"links_checked": 8000, "hidden_plain_cells": 60, "summary_links": 400, "nontrivial": 30}},
-    "thorough": {"cases": 3600, "budget_s": 420, "minimums": {"links_checked": 80000, "hidden_plain_cells": 600, "summary_links": 5000, "nontrivial": 300}},
+    "quick": {"cases": 160, "budget_s": 60, "minimums": {"links_checked": 8000, "hidden_plain_cells": 60, "summary_links": 400, "nontrivial": 30}, "required_tags": {"tag_family": ["colliding-row-ids", "own-year-order-inversion", "sheet-rows-equal-to-tax-years", "dust-taken-from-a-huge-lot", "general"]}},
+    "thorough": {"cases": 3600, "budget_s": 420, "minimums": {"links_checked": 80000, "hidden_plain_cells": 600, "summary_links": 5000, "nontrivial": 300}, "required_tags": {"tag_family": ["colliding-row-ids", "own-year-order-inversion", "sheet-rows-equal-to-tax-years", "dust-taken-from-a-huge-lot", "general"]}},
 }
 
 
@@ -87,6 +88,48 @@ def year_inversion_case(rng: random.Random) -> Dict[str, Any]:
     return {"hists": hists, "country": "us", "language": "en", "args": ["-m", rng.choice(("fifo", "lifo", "hifo", "lofo")), "-g", "en"], "ini_methods": {}, "schedule": {}, "from": f"{year}-12-31" if variant == "from-date-hides-earlier-rows" else None, "to": None, "variant": variant}
 
 
+def row_equals_year_case(rng: random.Random) -> Dict[str, Any]:
+    """The tables start about 2000 rows down the sheet, so that transactions sit on sheet rows (= RP2's transaction ids) equal to
+    the calendar years in which the asset has taxable events; those transactions are referenced by later fractions."""
+    from rpv import ods_io
+
+    year = rng.randint(2016, 2021)
+    hists = {}
+    for asset in ("AAA", "BBB")[: rng.randint(1, 2)]:
+        b = families.HB(asset=asset)
+        for k in range(4):
+            b.acquire(families.T(year - 1, 2 + 2 * k, 5), 3, 100 + 10 * k, ttype=rng.choice(("BUY", "BUY", "INTEREST")))
+        for k in range(3):
+            b.dispose(families.T(year + k, rng.randint(2, 11), 9), 2, 300 + k, ttype=rng.choice(("SELL", "GIFT")))
+        b.dispose(families.T(year + 2, 12, 1), 1, 320)
+        hists[asset] = b.done(rng, shuffle=rng.random() < 0.5)
+    layout = ods_io.default_layout()
+    # header rows: keyword + header line, then the four acquisitions on rows lead + 3 .. lead + 6
+    layout["leading_blank_rows"] = year - rng.randint(2, 5)
+    return {"hists": hists, "country": "us", "language": "en", "args": ["-m", rng.choice(("fifo", "lifo", "hifo", "lofo")), "-g", "en"], "ini_methods": {}, "schedule": {}, "from": None if rng.random() < 0.6 else f"{year}-01-01", "to": None, "layout": layout}
+
+
+def dust_from_a_huge_lot_case(rng: random.Random) -> Dict[str, Any]:
+    """A disposal that uses up a small lot and takes 1e-11 .. 1e-8 from a huge one (less than 5e-14 of it): the huge lot's sold
+    percentage displays as nothing, but it is an acquired lot of a visible fraction all the same."""
+    from decimal import Decimal
+
+    hists = {}
+    year = rng.randint(2016, 2021)
+    for asset in ("AAA", "BBB")[: rng.randint(1, 2)]:
+        b = families.HB(asset=asset)
+        small = Decimal(rng.choice(("1", "0.5", "2.25")))
+        dust = Decimal(rng.choice(("0.00000001", "0.00000000001", "0.000000003")))
+        b.acquire(families.T(year, 1, 5), small, 100)
+        b.acquire(families.T(year, 2, 5), rng.choice((500000, 2000000, 90000000)), rng.choice(("0.01", "0.0002")))
+        b.acquire(families.T(year, 3, 5), 1, 120, ttype="INTEREST")
+        b.dispose(families.T(year, 6, 1), small + dust, 130)
+        if rng.random() < 0.5:
+            b.dispose(families.T(year + 1, 6, 1), dust, 140, ttype="GIFT")
+        hists[asset] = b.done(rng, shuffle=rng.random() < 0.5)
+    return {"hists": hists, "country": "us", "language": "en", "args": ["-m", "fifo", "-g", "en"], "ini_methods": {}, "schedule": {}, "from": None, "to": None}
+
+
 def _one(ctx: Any, expected: Expected, case: Dict[str, Any], name: str, family: str) -> None:
     outcome = run_case(ctx, expected, case, name, "links")
     ctx.count("valid_cases")
@@ -118,6 +161,10 @@ def run_shard(ctx: Any) -> None:
             _one(ctx, expected, colliding_case(rng), f"c19-{index}", "colliding-row-ids")
         elif index % 8 == 1:
             _one(ctx, expected, year_inversion_case(rng), f"c19-{index}", "own-year-order-inversion")
+        elif index % 8 == 4:
+            _one(ctx, expected, row_equals_year_case(rng), f"c19-{index}", "sheet-rows-equal-to-tax-years")
+        elif index % 8 == 5:
+            _one(ctx, expected, dust_from_a_huge_lot_case(rng), f"c19-{index}", "dust-taken-from-a-huge-lot")
         elif index % 8 == 2 and corpus_case(rng, index // 8) is not None:
             _one(ctx, expected, corpus_case(ctx.rng("corpus", index), index // 8), f"c19-{index}", "shipped-example-input")
         else:
